@@ -15,6 +15,44 @@ pub fn shim_u32_to_le_bytes(x: u32) -> (r: [u8; 4])
     x.to_le_bytes()
 }
 
+pub open spec fn le32(x: nat) -> Seq<u8> {
+    nat_to_le(x, 4)
+}
+
+/// H^n(x): unkeyed BLAKE2b with an n-byte digest
+pub open spec fn b2b(n: nat, x: Seq<u8>) -> Seq<u8> {
+    blake2b_spec(n, Seq::<u8>::empty(), zeros(16), zeros(16), x)
+}
+
+// ------------------------------------------------------------------------------------------------
+// RFC 9106 section 3.3: variable-length hash function H'
+// ------------------------------------------------------------------------------------------------
+/// V_i (i >= 1):  V_1 = H^64(a),  V_i = H^64(V_{i-1})
+pub open spec fn long_v(i: nat, a: Seq<u8>) -> Seq<u8>
+    decreases i,
+{
+    if i <= 1 { b2b(64, a) } else { b2b(64, long_v((i - 1) as nat, a)) }
+}
+
+/// W_1 || .. || W_n,  W_i = first 32 bytes of V_i
+pub open spec fn long_w(n: nat, a: Seq<u8>) -> Seq<u8>
+    decreases n,
+{
+    if n == 0 { Seq::<u8>::empty() } else { long_w((n - 1) as nat, a) + long_v(n, a).subrange(0, 32) }
+}
+
+/// H'^T(A): if T <= 64 then H^T(LE32(T) || A) else r = ceil(T/32) - 2 and W_1 || .. || W_r || V_{r+1},
+/// V_{r+1} = H^(T - 32 r)(V_r)
+pub open spec fn blake2b_long_spec(t: nat, input: Seq<u8>) -> Seq<u8> {
+    let a = le32(t) + input;
+    if t <= 64 {
+        b2b(t, a)
+    } else {
+        let r = ((t + 31) / 32 - 2) as nat;
+        long_w(r, a) + b2b((t - 32 * r) as nat, long_v(r, a))
+    }
+}
+
 // ------------------------------------------------------------------------------------------------
 // RFC 9106 section 3.6: permutation P, built on the BlaMka-modified BLAKE2b round function GB
 // ------------------------------------------------------------------------------------------------
